@@ -1,12 +1,14 @@
 (* The include / require models instantiated with the constants regenerated from
    pico8/game/formatter/p8.py and pico8/build/build.py. *)
-From PV Require Import Base.Prelude Model.Paths Model.Include Model.Require
+From PV Require Import Base.Prelude Base.Utf8 Model.Paths Model.Include Model.Require Model.P8sciiInst
   Generated.T_files_p8 Generated.T_files_build.
 
 Definition inc_root_now : bytes -> bytes -> bytes -> bytes :=
   get_root_include_path pico8_cart_paths root_detection_kind.
 Definition resolve_include_now : bytes -> bytes -> (bytes -> bool) -> bytes -> bytes -> result bytes :=
   resolve_include pico8_cart_paths root_detection_kind include_containment_kind.
+Definition include_accesses_now : bytes -> bytes -> (bytes -> bool) -> bytes -> bytes -> list (bool * bytes) * bool :=
+  include_accesses pico8_cart_paths root_detection_kind include_containment_kind.
 (* the variant with plain string-prefix tests (the code before the two `fix:` commits; what a
    revert of them would regenerate) - kept only to state the refutation lemmas *)
 Definition inc_root_prefix : bytes -> bytes -> bytes -> bytes :=
@@ -24,11 +26,21 @@ Definition effective_lua_path_now : option bytes -> option bytes -> bytes :=
 Definition require_candidates_now : bytes -> bytes -> bytes -> list bytes :=
   require_candidates path_sep_now placeholder_now.
 
+(* the name captured from an include line -> the file name (as UTF-8 bytes), by the regenerated shape
+   include_name_decode_kind: 0 = str(b, encoding='utf-8') (identity on valid UTF-8, UnicodeDecodeError
+   otherwise), 1 = lua.p8scii_to_unicode(b) (every byte has a spelling; Model/P8scii.v) *)
+Definition decode_name (kind : Z) (b : bytes) : result bytes :=
+  if kind =? 0 then match utf8_decode b with Some _ => Ok b | None => Err UnicodeError end
+  else Ok (utf8_encode (p8_p2u b)).
+Definition decode_name_now : bytes -> result bytes := decode_name include_name_decode_kind.
+
 (* process_includes(lualines, filename) on a file system view; filename = None: the assert fires at the
    first include line *)
 Definition process_includes_now (cwd home : bytes) (fs : fsview) (filename : option bytes)
   : list bytes -> result (list bytes) :=
   process_includes include_newline_kind
+    (match filename with Some _ => true | None => false end)
+    decode_name_now
     (match filename with
      | Some f => resolve_include_now cwd home (fs_isfile fs) f
      | None => fun _ => Err AssertionError
